@@ -51,6 +51,16 @@ def observe(cfg):
                 tab[lb] = 0
         lab[prop] = tab
     obs["labels"] = lab
+    # a caller scribbles over the array it was handed; the mesh must answer as before
+    w = m.cellvolume
+    try:
+        w[...] = -7.0
+    except (ValueError, TypeError):
+        pass                                     # a read-only array is fine too
+    vol2 = n.asarray(m.cellvolume, dtype=float) / (math.pi ** cfg["piexp"])
+    obs["volume_again"] = lift.lift_array(vol2.ravel())[0]
+    obs["cellsize_again"] = [lift.lift_array(n.asarray(getattr(m.cellsize, labels[a]), dtype=float)
+                                             / drive.axis_unit(cfg, a))[0] for a in range(d)]
     return obs
 
 
